@@ -1,7 +1,16 @@
-import Pycoin.Model.MsgSigning
-/-! C17 property theorems (first version: the generated tables agree with the model). -/
+import Pycoin.Proofs.MsgSig
+import Pycoin.Proofs.TxWire
+import Pycoin.Gen.Networks
+/-!
+C17 — signed text messages verify for the signer only and never crash the verifier.
+
+Theorems over `Model/MsgSigning.lean` (the model of the repaired `pycoin/contrib/msg_signing.py`).  ECDSA facts that
+belong to C01/C02 appear as explicit hypotheses in the theorems named `_partial`.
+-/
 namespace Pycoin.MsgSigning
-open Pycoin.Gen.MsgSigning
+open Pycoin Pycoin.Curve Pycoin.Gen.MsgSigning
+
+/-! ## generated tables and literals agree with the model -/
 
 def headerOf (f : Nat) : Option (Bool × Nat) :=
   match decodeHeader f with
@@ -9,8 +18,301 @@ def headerOf (f : Nat) : Option (Bool × Nat) :=
   | .error _ => none
 
 /-- what `_decode_signature` does with each of the 256 first bytes, as observed by running it (generated table),
-is the model's `decodeHeader` -/
+is the model's `decodeHeader`: accepted exactly for 27..34, compression flag = bit 2, recovery id = bits 0-1 of
+`first - 27` -/
 theorem C17_header_table : headerDecode = (List.range 256).map headerOf := by
   decide +kernel
+
+/-- the first byte `signature_for_message_hash` writes for every (recid, is_compressed), as observed by running it,
+is `27 + recid + (4 if is_compressed else 0)`, and `_decode_signature` inverts it -/
+theorem C17_header_encode_table :
+    headerEncode.all (fun e => ((headerByte (e.1 : Int) e.2.1).toNat == e.2.2) && (headerOf e.2.2 == some (e.2.1, e.1))) = true
+      ∧ headerEncode.map (fun e => (e.1, e.2.1)) = [(0, false), (0, true), (1, false), (1, true), (2, false), (2, true), (3, false), (3, true)] := by
+  decide +kernel
+
+/-- the literals of `parse_sections` / `parse_signed_message` / `_decode_signature` the model's semantics is written for -/
+theorem C17_literals :
+    sectionNeedle = "SIGNED MESSAGE-----\n" ∧ sigMarkerRegex = "\n-----BEGIN [A-Z ]*SIGNATURE-----\n" ∧
+    endMarker = "-----END" ∧ endPrefix = "-----END" ∧ addressLabel = "address" ∧ sigLength = 65 ∧
+    signatureTemplate = "-----BEGIN {net_name} SIGNED MESSAGE-----\n{msg}\n-----BEGIN SIGNATURE-----\n{addr}\n{sig}\n-----END {net_name} SIGNED MESSAGE-----" :=
+  ⟨rfl, rfl, rfl, rfl, rfl, rfl, rfl⟩
+
+/-! ## compact signature layout -/
+
+/-- **C17 layout clause.**  For `r, s < 2^256` and a recovery id 0..3 the signature text is the base64 (no newline)
+of 65 bytes: `27 + recid + 4·compressed`, then `r` and `s` as 32-byte big-endian integers; decoding it with
+`binascii.a2b_base64` gives those bytes back and `_decode_signature` returns the four fields. -/
+theorem C17_sig_layout (r s recid : Nat) (comp : Bool) (hr : r < 2 ^ 256) (hs : s < 2 ^ 256) (hrec : recid < 4) :
+    let raw := rawSig (27 + recid + (if comp then 4 else 0)) r s
+    encodeSignature (r : Int) (s : Int) (recid : Int) comp = .ok (asciiStr (b64Groups raw)) ∧
+    raw.length = 65 ∧ raw = UInt8.ofNat (27 + recid + (if comp then 4 else 0)) :: (beBytes r 32 ++ beBytes s 32) ∧
+    a2bBase64Str (asciiStr (b64Groups raw)) = .ok raw ∧
+    decodeSignature (asciiStr (b64Groups raw)) = .ok (comp, recid, r, s) := by
+  intro raw
+  refine ⟨encodeSignature_ok r s recid comp hr hs hrec, rawSig_length _ _ _, rfl, ?_, decodeSignature_encode r s recid comp hr hs hrec⟩
+  have := a2bBase64Str_encode raw
+  rwa [bytesStrip_b2aBase64] at this
+
+/-- base64 round trip for byte strings of any length (the model of `binascii`) -/
+theorem C17_base64_rt (b : Bytes) :
+    a2bBase64 (b2aBase64 b) = .ok b ∧ a2bBase64Str (asciiStr (bytesStrip (b2aBase64 b))) = .ok b :=
+  ⟨a2bBase64_b2aBase64 b, a2bBase64Str_encode b⟩
+
+
+/-! ## digest -/
+
+theorem pctFormat_cons (c : Char) (t arg : Str) (hc : c ≠ '%') :
+    pctFormat (c :: t) arg = (pctFormat t arg).map (c :: ·) := by
+  rw [pctFormat.eq_def]
+  split <;> simp_all
+
+theorem pctFormat_lit (l arg : Str) (h : '%' ∉ l) : pctFormat l arg = .ok l := by
+  induction l with
+  | nil => rfl
+  | cons c t ih =>
+    have hc : c ≠ '%' := fun e => h (by simp [e])
+    have ht : '%' ∉ t := fun e => h (by simp [e])
+    rw [pctFormat_cons c t arg hc, ih ht]; rfl
+
+def magicSuffix : Str := " Signed Message:\n".toList
+
+/-- `msg_magic_for_netcode()` is the network name followed by `" Signed Message:\n"` (format string read from the source) -/
+theorem msgMagic_eq (name : Str) : msgMagic name = .ok (name ++ magicSuffix) := by
+  unfold msgMagic
+  have : magicFormat.toList = '%' :: 's' :: magicSuffix := by decide
+  rw [this, pctFormat, pctFormat_lit _ _ (by decide)]
+  rfl
+
+theorem signingPreimage_eq (name msg : Str) (h1 : (utf8 (name ++ magicSuffix)).length < 2 ^ 64) (h2 : (utf8 msg).length < 2 ^ 64) :
+    signingPreimage name msg
+      = .ok (Spec.Wire.varBytes (utf8 (name ++ magicSuffix)) ++ Spec.Wire.varBytes (utf8 msg)) := by
+  unfold signingPreimage
+  simp [msgMagic_eq, bind, Except.bind, liftWire, streamSatoshiString_eq _ h1, streamSatoshiString_eq _ h2, pure, Except.pure]
+
+/-- every shipped network name gives a magic string shorter than 253 bytes: its length prefix is one byte -/
+theorem networkMagic_short :
+    Pycoin.Gen.Networks.all.all (fun net => (utf8 (net.networkName.toList ++ magicSuffix)).length < 253) = true := by
+  decide +kernel
+
+/-- **C17 digest clause.**  For every network of the generated table and every message (shorter than 2^64 bytes, the
+bound of the compact-size writer): the digest is the double SHA-256 of
+`len(magic) ‖ magic ‖ compactSize(len(msg)) ‖ msg`, with `magic = "<network name> Signed Message:\n"` and a one-byte
+length in front of the magic. -/
+theorem C17_msg_hash_def (net : Pycoin.Addr.Network) (hnet : net ∈ Pycoin.Gen.Networks.all) (msg : Str)
+    (hlen : (utf8 msg).length < 2 ^ 64) :
+    hashForSigning net.networkName.toList msg
+      = .ok (beNat (Hash.dsha256 (
+          (UInt8.ofNat (utf8 (net.networkName.toList ++ magicSuffix)).length :: utf8 (net.networkName.toList ++ magicSuffix))
+            ++ Spec.Wire.varBytes (utf8 msg)))) := by
+  have hshort : (utf8 (net.networkName.toList ++ magicSuffix)).length < 253 := by
+    have := List.all_eq_true.mp networkMagic_short net hnet
+    simpa using this
+  unfold hashForSigning
+  rw [signingPreimage_eq _ _ (by omega) hlen]
+  have : Spec.Wire.varBytes (utf8 (net.networkName.toList ++ magicSuffix))
+      = UInt8.ofNat (utf8 (net.networkName.toList ++ magicSuffix)).length :: utf8 (net.networkName.toList ++ magicSuffix) := by
+    unfold Spec.Wire.varBytes Spec.Wire.compactSize
+    have : (utf8 (net.networkName.toList ++ magicSuffix)).length ≤ 0xFC := by omega
+    simp [this]
+  rw [this]
+  rfl
+
+/-- the digest depends on the network only through its name, and differs in the preimage as soon as names differ -/
+theorem C17_msg_hash_total (name msg : Str) (h1 : (utf8 (name ++ magicSuffix)).length < 2 ^ 64) (h2 : (utf8 msg).length < 2 ^ 64) :
+    ∃ z, hashForSigning name msg = .ok z ∧ z < 2 ^ 256 := by
+  unfold hashForSigning
+  rw [signingPreimage_eq _ _ h1 h2]
+  refine ⟨_, rfl, ?_⟩
+  have hl : (Hash.dsha256 (Spec.Wire.varBytes (utf8 (name ++ magicSuffix)) ++ Spec.Wire.varBytes (utf8 msg))).reverse.length = 32 := by
+    simp [Hash.dsha256, Hash.sha256, Hash.u32be]
+  have := leNat_lt (Hash.dsha256 (Spec.Wire.varBytes (utf8 (name ++ magicSuffix)) ++ Spec.Wire.varBytes (utf8 msg))).reverse
+  rw [hl] at this
+  have h256 : (256 : Nat) ^ 32 = 2 ^ 256 := by decide
+  unfold beNat
+  omega
+
+
+
+/-- the object `verify_message` compares with -/
+def keyOf (env : Env) : KeyOrAddress → KeyObj
+  | .text s => env.parseAddress s
+  | .obj k => k
+
+theorem verifyMessage_of_pair (env : Env) (ka : KeyOrAddress) (sig msg : Str) (z : Nat) (P : Pt) (comp : Bool)
+    (hz : hashForSigning env.networkName msg = .ok z)
+    (hp : pairForMessageHash env.c env.bf sig z = .ok (P, comp)) :
+    verifyMessage env ka sig (some msg) = pairMatchesKey P (keyOf env ka) comp := by
+  unfold verifyMessage
+  simp only [hz, Except.map, hp]
+  cases ka <;> rfl
+
+theorem verifyMessage_of_refused (env : Env) (ka : KeyOrAddress) (sig msg : Str) (z : Nat)
+    (hz : hashForSigning env.networkName msg = .ok z)
+    (hp : pairForMessageHash env.c env.bf sig z = .error .encodingError) :
+    verifyMessage env ka sig (some msg) = .ok false := by
+  unfold verifyMessage
+  simp only [hz, Except.map, hp]
+
+/-- the abscissa of the nonce point a compact signature names: `r`, or `r + n` for recovery ids 2 and 3 -/
+def nonceX (c : CurveParams) (r recid : Nat) : Int := if recid > 1 then (r : Int) + (c.n : Int) else (r : Int)
+
+theorem pairForMessageHash_encode (c : CurveParams) (bf : Int) (r s recid : Nat) (comp : Bool) (z : Int)
+    (hr : 1 ≤ r ∧ r < c.n) (hs : 1 ≤ s ∧ s < c.n) (hn : c.n ≤ 2 ^ 256) (hrec : recid < 4)
+    (hx : nonceX c r recid < c.p) :
+    pairForMessageHash c bf (asciiStr (b64Groups (rawSig (27 + recid + (if comp then 4 else 0)) r s))) z
+      = match possiblePublicPairsForSignature c bf z (nonceX c r recid) s (some ((recid &&& 1 : Nat) : Int)) with
+        | .error e => .error (.curve e)
+        | .ok [] => .error .encodingError
+        | .ok (q :: _) => if q = none then .error .encodingError else .ok (q, comp) := by
+  unfold pairForMessageHash
+  rw [decodeSignature_encode r s recid comp (by omega) (by omega) hrec]
+  have h1 : (1 : Int) ≤ (r : Int) ∧ (r : Int) < (c.n : Int) ∧ (1 : Int) ≤ (s : Int) ∧ (s : Int) < (c.n : Int) := by omega
+  have h2 : ¬ (nonceX c r recid ≥ (c.p : Int)) := by omega
+  simp only [h1, and_self, not_true_eq_false, if_false]
+  unfold nonceX at h2 ⊢
+  simp only [h2, if_false]
+  rfl
+
+/-- **C17 recovery clause** (partial: the ECDSA facts about the signature are hypotheses, to be discharged by
+C01 `sign_verifies` (ranges) and `recover_complete` (the recovery list starts with the signer)).
+If `sign_with_recid(d, z)` returns `(r, s, recid)` and recovery from the nonce abscissa with the parity bit of `recid`
+yields `Q` first, then `signature_for_message_hash` produces a text from which `pair_for_message_hash` returns exactly
+`(Q, is_compressed)`. -/
+theorem C17_recover_is_signer_partial (c : CurveParams) (bf d z : Int) (comp : Bool) (r s recid : Nat) (Q : Int × Int)
+    (rest : List Pt)
+    (hsig : RFC6979.signWithRecid c bf d z = .ok ((r : Int), (s : Int), (recid : Int)))
+    (hr : 1 ≤ r ∧ r < c.n) (hs : 1 ≤ s ∧ s < c.n) (hn : c.n ≤ 2 ^ 256) (hrec : recid < 4)
+    (hx : nonceX c r recid < c.p)
+    (hrecov : possiblePublicPairsForSignature c bf z (nonceX c r recid) s (some ((recid &&& 1 : Nat) : Int)) = .ok (some Q :: rest)) :
+    ∃ sig, signatureForMessageHash c bf d z comp = .ok sig ∧ pairForMessageHash c bf sig z = .ok (some Q, comp) := by
+  refine ⟨asciiStr (b64Groups (rawSig (27 + recid + (if comp then 4 else 0)) r s)), ?_, ?_⟩
+  · unfold signatureForMessageHash
+    simp only [hsig, liftCurve, bind, Except.bind]
+    exact encodeSignature_ok r s recid comp (by omega) (by omega) hrec
+  · rw [pairForMessageHash_encode c bf r s recid comp z hr hs hn hrec hx, hrecov]
+    simp
+
+theorem publicPairToSec_ok (x y : Int) (comp : Bool) (hx : 0 ≤ x ∧ x < 2 ^ 256) (hy : 0 ≤ y ∧ y < 2 ^ 256) :
+    ∃ sec, publicPairToSec x y comp = .ok sec := by
+  have hxn : x = ((x.toNat : Nat) : Int) := by omega
+  have hyn : y = ((y.toNat : Nat) : Int) := by omega
+  have h1 := toBytes32_nat x.toNat (by omega)
+  have h2 := toBytes32_nat y.toNat (by omega)
+  rw [← hxn] at h1
+  rw [← hyn] at h2
+  unfold publicPairToSec
+  cases comp <;> simp [h1, h2, bind, Except.bind, pure, Except.pure]
+
+/-- **C17 sign-then-verify** (partial, same hypotheses as `C17_recover_is_signer_partial`).  The signature
+`sign_message` produces verifies (a) for a key object whose public pair is the signer's and (b) for any address text
+that `parse.address` resolves to a pay-to-pubkey-hash contract carrying `hash160(sec(Q, is_compressed))`, compressed
+or not. -/
+theorem C17_sign_then_verify_partial (env : Env) (d : Int) (comp : Bool) (msg : Str) (z r s recid : Nat) (Q : Int × Int)
+    (rest : List Pt)
+    (hz : hashForSigning env.networkName msg = .ok z)
+    (hsig : RFC6979.signWithRecid env.c env.bf d z = .ok ((r : Int), (s : Int), (recid : Int)))
+    (hr : 1 ≤ r ∧ r < env.c.n) (hs : 1 ≤ s ∧ s < env.c.n) (hn : env.c.n ≤ 2 ^ 256) (hrec : recid < 4)
+    (hx : nonceX env.c r recid < env.c.p)
+    (hrecov : possiblePublicPairsForSignature env.c env.bf z (nonceX env.c r recid) s (some ((recid &&& 1 : Nat) : Int))
+      = .ok (some Q :: rest)) :
+    ∃ sig, signatureForMessageHash env.c env.bf d z comp = .ok sig ∧
+      verifyMessage env (.obj (.key (some Q))) sig (some msg) = .ok true ∧
+      ∀ addr typ sec, env.parseAddress addr = .contract typ (some (Hash.hash160 sec)) → (typ = "p2pkh" ∨ typ = "p2pkh_wit") →
+        publicPairToSec Q.1 Q.2 comp = .ok sec →
+        verifyMessage env (.text addr) sig (some msg) = .ok true := by
+  obtain ⟨sig, h1, h2⟩ := C17_recover_is_signer_partial env.c env.bf d z comp r s recid Q rest hsig hr hs hn hrec hx hrecov
+  refine ⟨sig, h1, ?_, ?_⟩
+  · rw [verifyMessage_of_pair env _ sig msg z _ comp hz h2]
+    simp [pairMatchesKey, keyOf]
+  · intro addr typ sec hpa htyp hsec
+    rw [verifyMessage_of_pair env _ sig msg z _ comp hz h2]
+    simp only [keyOf, hpa, pairMatchesKey]
+    have : ¬ (typ ≠ "p2pkh" ∧ typ ≠ "p2pkh_wit") := by
+      rcases htyp with h | h <;> simp [h]
+    simp only [this, if_false, publicPairToHash160Sec, hsec, Except.map]
+    simp
+
+/-! ## uniqueness: the recovered pair is a function of (signature text, digest) -/
+
+/-- **C17 uniqueness clause, keys.**  For one signature text and one message, at most one public pair verifies:
+`verify` compares the key with the pair recovered from `(signature, hash)`, which does not depend on the key. -/
+theorem C17_verify_unique_key (env : Env) (sig msg : Str) (K K' : Option (Int × Int))
+    (h : verifyMessage env (.obj (.key K)) sig (some msg) = .ok true)
+    (h' : verifyMessage env (.obj (.key K')) sig (some msg) = .ok true) : K = K' := by
+  unfold verifyMessage at h h'
+  cases hz : (hashForSigning env.networkName msg) with
+  | error e => simp [hz, Except.map] at h
+  | ok z =>
+    simp only [hz, Except.map] at h h'
+    cases hp : pairForMessageHash env.c env.bf sig (z : Int) with
+    | error e =>
+      rw [hp] at h
+      cases e <;> simp at h
+    | ok pc =>
+      obtain ⟨P, comp⟩ := pc
+      rw [hp] at h h'
+      simp only [pairMatchesKey, Except.ok.injEq, beq_iff_eq] at h h'
+      rw [h, h']
+
+/-- any other key object fails -/
+theorem C17_verify_other_key_fails (env : Env) (sig msg : Str) (K K' : Option (Int × Int)) (hne : K' ≠ K)
+    (h : verifyMessage env (.obj (.key K)) sig (some msg) = .ok true) :
+    verifyMessage env (.obj (.key K')) sig (some msg) = .ok false := by
+  unfold verifyMessage at h ⊢
+  cases hz : (hashForSigning env.networkName msg) with
+  | error e => simp [hz, Except.map] at h
+  | ok z =>
+    simp only [hz, Except.map] at h ⊢
+    cases hp : pairForMessageHash env.c env.bf sig (z : Int) with
+    | error e =>
+      rw [hp] at h
+      cases e <;> simp at h
+    | ok pc =>
+      obtain ⟨P, comp⟩ := pc
+      rw [hp] at h
+      simp only [pairMatchesKey, Except.ok.injEq, beq_iff_eq] at h ⊢
+      subst h
+      simpa using hne
+
+/-- **C17 uniqueness clause, addresses.**  For one signature text and one message, all contracts that verify carry
+the same hash160 (and are of a pay-to-pubkey-hash type): any other hash160 fails. -/
+theorem C17_verify_unique_hash160 (env : Env) (sig msg : Str) (t t' : String) (h160 h160' : Option Bytes)
+    (h : verifyMessage env (.obj (.contract t h160)) sig (some msg) = .ok true)
+    (h' : verifyMessage env (.obj (.contract t' h160')) sig (some msg) = .ok true) :
+    h160 = h160' ∧ (t = "p2pkh" ∨ t = "p2pkh_wit") := by
+  unfold verifyMessage at h h'
+  cases hz : (hashForSigning env.networkName msg) with
+  | error e => simp [hz, Except.map] at h
+  | ok z =>
+    simp only [hz, Except.map] at h h'
+    cases hp : pairForMessageHash env.c env.bf sig (z : Int) with
+    | error e =>
+      rw [hp] at h
+      cases e <;> simp at h
+    | ok pc =>
+      obtain ⟨P, comp⟩ := pc
+      rw [hp] at h h'
+      simp only [pairMatchesKey] at h h'
+      by_cases ht : t ≠ "p2pkh" ∧ t ≠ "p2pkh_wit"
+      · simp [ht] at h
+      by_cases ht' : t' ≠ "p2pkh" ∧ t' ≠ "p2pkh_wit"
+      · simp [ht'] at h'
+      simp only [ht, ht', if_false] at h h'
+      cases P with
+      | none => simp at h
+      | some xy =>
+        obtain ⟨x, y⟩ := xy
+        simp only [publicPairToHash160Sec] at h h'
+        cases hsec : publicPairToSec x y comp with
+        | error e => simp [hsec, Except.map] at h
+        | ok sec =>
+          simp only [hsec, Except.map, Except.ok.injEq, beq_iff_eq] at h h'
+          refine ⟨by rw [h, h'], ?_⟩
+          by_cases h1 : t = "p2pkh"
+          · exact Or.inl h1
+          · by_cases h2 : t = "p2pkh_wit"
+            · exact Or.inr h2
+            · exact absurd ⟨h1, h2⟩ ht
+
 
 end Pycoin.MsgSigning
